@@ -17,6 +17,9 @@
 (*   finish    release everything and drain every consumer to the end          *)
 (*   freerun   (first and only step) no gates, no stepping: every user         *)
 (*             function returns at once, every consumer drains concurrently    *)
+(*   race-start  (first and only step) RaceReps fresh instances of an           *)
+(*             undisturbed run whose advances are concurrent from the very     *)
+(*             first one (two readers per output released together)            *)
 (*   race-close / race-cancel  (first and only step) RaceReps fresh instances: *)
 (*             free-running consumers against an unsynchronised Close of every *)
 (*             output / cancellation - the real scheduler decides where the    *)
@@ -127,7 +130,7 @@ Obs(op, arg) ==
      run  |-> IF cfg.c \in Group /\ started' /\ held' = {} /\ (cancelled' \/ nent' = cfg.n) THEN "must" ELSE "may",
      leak |-> Obliged(closed', cancelled', ended', nent', held') /\ held' = {},
      full |-> op \in {"finish", "freerun"},
-     stop |-> IF op \in {"finish", "freerun"} THEN "exhaust" ELSE StopName(closed', cancelled', ended')]
+     stop |-> IF op \in {"finish", "freerun", "race-start"} THEN "exhaust" ELSE StopName(closed', cancelled', ended')]
 
 Rec(op, arg) == steps' = Append(steps, Obs(op, arg))
 
@@ -238,6 +241,18 @@ FreeRun ==
     /\ UNCHANGED <<cfg, closed, cancelled>>
     /\ Rec("freerun", 0)
 
+\* undisturbed runs with concurrent first advances, repeated on fresh instances (C01: every interleaving
+\* of the hand-off, including the lazy setup); the per-repetition bag equality is judged by the harness
+RaceStart ==
+    /\ RaceReps > 0 /\ phase = "run" /\ steps = <<>>
+    /\ cfg.n = MaxN /\ \A k \in Ks(cfg.c) : k <= cfg.k
+    /\ started' = TRUE /\ rel' = (IF cfg.fn THEN Items ELSE rel) /\ held' = {}
+    /\ nent' = (IF cfg.fn THEN cfg.n ELSE nent)
+    /\ avail' = 0 /\ ngot' = (IF cfg.out > 0 THEN cfg.n ELSE ngot)
+    /\ pend' = {} /\ ended' = Consumers /\ phase' = "over"
+    /\ UNCHANGED <<cfg, closed, cancelled>>
+    /\ Rec("race-start", RaceReps)
+
 \* an unsynchronised stop against free-running consumers, repeated on fresh instances: whatever the
 \* interleaving, every advance returns (without panicking) and nothing of the library remains
 Race(mode) ==
@@ -254,7 +269,7 @@ Race(mode) ==
     /\ Rec(mode, RaceReps)
 
 Step == \/ \E c \in Consumers : Read(c)
-        \/ FreeRun \/ Race("race-close") \/ Race("race-cancel")
+        \/ FreeRun \/ RaceStart \/ Race("race-close") \/ Race("race-cancel")
         \/ Run
         \/ \E i \in Items : Release(i)
         \/ \E o \in Outs : Close(o)
